@@ -309,7 +309,7 @@ class C11(Sim):
     FAULT_KINDS = ["prng_handover", "forced_pivot"]
     PROBES = ["leaf_smaller_than_k", "empty_side_after_split", "all_equal_on_axis", "k>=n", "radius_zero",
               "query_on_data_point", "duplicates", "tie_at_kth", "radius_equals_data_distance",
-              "radius_hair_off_data_distance", "rebuild", "outside_query", "int_points", "caller_reuses_its_array"]
+              "radius_hair_off_data_distance", "rebuild", "outside_query", "int_points", "caller_reuses_its_array", "second_tree_in_between"]
     QUICK_RUNS = 2500
     THOROUGH_RUNS = 200000
     BLOCK = 20
@@ -484,6 +484,12 @@ class C11(Sim):
         c = self.pick_client(rng, names, weights, cfg["burst"])
         r = self.client_rng(c)
         if c == "builder":
+            if r.chance(0.35):
+                # ANOTHER tree, on another cloud, is built in the same process between two uses of this run's trees (cross-object history):
+                # nothing of it may show in the trees under test
+                m = r.randint(1, 60)
+                pts = [[round(3.0 * r.gauss(), 4) + 40.0 for _ in range(self.d)] for _ in range(m)]
+                return {"c": c, "op": "build_other", "pts": pts, "leaf": r.randint(1, 8), "strategy": r.choice(STRATEGIES)}
             return self._propose_build(r, False)
         if c == "noise":
             return {"c": c, "op": "prng_draw", "m": r.randint(1, 7)}
@@ -528,6 +534,8 @@ class C11(Sim):
                 (op == "leaves" or len(ev["pt"]) == self.d)
         if op == "prng_draw":
             return self.shared
+        if op == "build_other":
+            return bool(ev["pts"]) and len(ev["pts"][0]) == self.d
         return True
 
     # ---------------------------------------------------------------- oracles
@@ -591,6 +599,25 @@ class C11(Sim):
             return self._step_radius(ev)
         if op == "leaves":
             return self._check_leaves(ev["t"], "leaves")
+        if op == "build_other":
+            P = np.array(ev["pts"], dtype=np.float64)
+            nd_ = len({tuple(p) for p in ev["pts"]})
+            limit = build_budget(len(P), self.d, int(ev["leaf"]), ev["strategy"], nd_, 0, 1 + len(P) - nd_)
+            try:
+                with _budget.StepBudget(limit) as b:
+                    out = call(self.KDTree, P, max_leaf_size=int(ev["leaf"]), strategy=ev["strategy"])
+            except SimBudget:
+                self.violation("construction-terminates", "build_other", "budget_exceeded", "spatial.kdtree:__init__", "other-cloud",
+                               "KDTree(%d other points, leaf %d, %s) still running after %d steps" % (len(P), ev["leaf"], ev["strategy"], limit))
+            if not out.ok:
+                self.exc_violation("construction-terminates", "build_other", out, "other-cloud", "a second, unrelated tree")
+            self.other_tree = out.value  # kept alive, like a caller would
+            self.probes["second_tree_in_between"] += 1
+            # every tree of this run still stores exactly its own points
+            for t in range(N_SLOTS):
+                if self.trees[t] is not None:
+                    self._check_leaves(t, "after-build_other")
+            return len(P)
         if op == "prng_draw":
             out = call(self.Vec.random, int(ev["m"]))
             if out.ok:
